@@ -712,10 +712,11 @@ func c08OpenHub(dir string) *vjHub {
 	h := &vjHub{Dir: dir}
 	lg := zap.NewNop().Sugar()
 	h.Env = &conf.Config{
-		Logger:        lg,
-		StoreLocation: filepath.Join(dir, "store"),
-		Auth:          &conf.AuthConfig{Middleware: "noop"},
-		RunnerConfig:  &conf.RunnerConfig{PoolIncremental: 10, PoolFull: 5, Concurrent: 1},
+		Logger:         lg,
+		StoreLocation:  filepath.Join(dir, "store"),
+		BlockCacheSize: 32 << 20,
+		Auth:           &conf.AuthConfig{Middleware: "noop"},
+		RunnerConfig:   &conf.RunnerConfig{PoolIncremental: 10, PoolFull: 5, Concurrent: 1},
 	}
 	_ = os.MkdirAll(h.Env.StoreLocation, 0o755)
 	vjQuiet(func() {
